@@ -277,6 +277,7 @@ def to_sync_iter(iterable: AsyncIterable[T],
     :param iterable: Asynchonrous iterable to process
     :param loop: Optional specific loop to use to process the iterable
     """
+    own_loop = loop is None
     if loop is None:
         loop = aio.new_event_loop()
 
@@ -289,7 +290,13 @@ def to_sync_iter(iterable: AsyncIterable[T],
                 _future_result(run_coro_ts(_queue_elements(), _loop))
             else:
                 aio.set_event_loop(_loop)
-                _loop.run_until_complete(_queue_elements())
+                try:
+                    _loop.run_until_complete(_queue_elements())
+                finally:
+                    if own_loop:
+                        # Nobody else can: don't leave its executor's
+                        # threads and its descriptors behind
+                        _close_loop(_loop)
         except BaseException:
             if not started:
                 # E.g. the loop is closed: the consumer still waits for
@@ -319,6 +326,16 @@ def to_sync_iter(iterable: AsyncIterable[T],
             _future_result(future)
             if error is not None:
                 raise error
+
+
+def _close_loop(loop: Loop) -> None:
+    """Finish and close a loop which isn't running, in its thread."""
+    try:
+        loop.run_until_complete(loop.shutdown_asyncgens())
+        loop.run_until_complete(loop.shutdown_default_executor())
+    finally:
+        aio.set_event_loop(None)
+        loop.close()
 
 
 def _future_result(future: 'Future[T]') -> T:
